@@ -304,10 +304,21 @@ func gaugeSites(p *Program) (map[*ssa.Global][]gaugeSite, []*ssa.Global) {
 		}
 	}
 	sort.Slice(order, func(i, j int) bool { return order[i].Name() < order[j].Name() })
+	var gaugeUnits []*ssa.Function
 	for _, fn := range p.Funcs {
 		if p.isTestFile(fn.Pos()) {
 			continue
 		}
+		if fn.Pkg != nil && inUniverse(fn.Pkg.Pkg.Path()) || fn.Parent() != nil && outermost(fn).Pkg != nil && inUniverse(outermost(fn).Pkg.Pkg.Path()) {
+			if p.folded(fn) {
+				continue
+			}
+			gaugeUnits = append(gaugeUnits, p.view(fn))
+		} else {
+			gaugeUnits = append(gaugeUnits, fn)
+		}
+	}
+	for _, fn := range gaugeUnits {
 		for _, c := range allCalls(fn) {
 			cc := c.Common()
 			if !cc.IsInvoke() {
@@ -503,7 +514,7 @@ func rulePopulationGauge(p *Program, r *Result, g *ssa.Global, incs, decs []gaug
 	}
 	accounted := map[ssa.CallInstruction]bool{}
 	// every mutation of the table in the module
-	for _, fn := range p.UFuncs() {
+	for _, fn := range p.UUnits() {
 		for _, b := range fn.Blocks {
 			for _, in := range b.Instrs {
 				switch x := in.(type) {
@@ -746,9 +757,9 @@ func mustPassFromBlock(b *ssa.BasicBlock, pred func(ssa.Instruction) bool) bool 
 
 // rulePopulationInsertSites: the inserting function is called only when the lookup found no entry.
 func rulePopulationInsertSites(p *Program, r *Result, gk string, inserter *ssa.Function) {
-	for _, fn := range p.UFuncs() {
+	for _, fn := range p.UUnits() {
 		for _, c := range allCalls(fn) {
-			if c.Common().StaticCallee() != inserter {
+			if !sameFn(c.Common().StaticCallee(), inserter) {
 				continue
 			}
 			k := fmt.Sprintf("%s:insert-site:%s", gk, fnKey(fn))
